@@ -507,17 +507,25 @@ class WsgiApplication(HttpBase):
                 return self.handle_error(p_ctx, others, p_ctx.out_error,
                                                                  start_response)
 
-        if p_ctx.transport.resp_code is None:
-            p_ctx.transport.resp_code = HTTP_200
-
         try:
             self.get_out_string(p_ctx)
+
+        except Fault as e:
+            logger.exception(e)
+            p_ctx.out_error = e
+            p_ctx.out_document = None
+            return self.handle_error(p_ctx, others, p_ctx.out_error,
+                                                                 start_response)
 
         except Exception as e:
             logger.exception(e)
             p_ctx.out_error = Fault('Server', get_fault_string_from_exception(e))
+            p_ctx.out_document = None
             return self.handle_error(p_ctx, others, p_ctx.out_error,
                                                                  start_response)
+
+        if p_ctx.transport.resp_code is None:
+            p_ctx.transport.resp_code = HTTP_200
 
 
         if isinstance(p_ctx.out_protocol, HttpRpc) and \
